@@ -19,72 +19,129 @@ theorem foldl_del (ks : List String) (h : Hdr) (x : String) :
 
 /-- unfold the generated operation list and decide header-name (string literal) equalities -/
 macro "hdr_simp" : tactic => `(tactic|
-  simp [rewrite, rewriteOps, delHeaders, applyOp, setXForwarded, foldl_del, Hdr.set, Hdr.del, wantHost,
+  simp [rewriteWith, rewriteOps, delHeaders, applyOp, setXForwarded, foldl_del, Hdr.set, Hdr.del, wantHost, withPort,
         XFF, XFH, XFP, TCI, XRI, *])
 
+/-! ## Which host is "requested" — the generated selection chain against the property statement -/
+
+/-- The generated chain never dereferences a nil `in.TLS`, and it selects exactly the REQUESTED host of the
+property statement (`requestedHost`): `:authority`/Host for HTTP/2 and HTTP/3 — whatever the SNI of the (possibly
+coalesced) connection —, the SNI for HTTP/1.x over TLS, Host for plain HTTP/1.x; always through `.Hostname()`. -/
+theorem requested_host_rule (e : Env) (i : Req) :
+    urlHost? e i = some (e.hostnameOf (requestedHost i)) := by
+  have hp : (2 < i.protoMajor ∨ i.protoMajor = 2) ↔ 2 ≤ i.protoMajor := by omega
+  unfold urlHost? requestedHost
+  by_cases h : 2 ≤ i.protoMajor <;> cases ht : i.tls <;>
+    simp [hostRule, hostDefault, selHost, HostCond.holds, HostSrc.read, hp, h, ht]
+
+/-- `proxyRewrite` never panics, and its result is the header operations run with the requested host. -/
+theorem rewrite_eq (e : Env) (i : Req) (out : Hdr) :
+    rewrite e i out = some (rewriteWith e.port (e.hostnameOf (requestedHost i)) i out) := by
+  simp [rewrite, requested_host_rule]
+
+theorem rewrite_never_panics (e : Env) (i : Req) (out : Hdr) : (rewrite e i out).isSome := by
+  simp [rewrite_eq]
+
+/-- on HTTP/2 and HTTP/3 the selected host is the request's own authority: the SNI has no influence -/
+theorem url_host_is_authority_on_h2_h3 (e : Env) (i : Req) (h2 : 2 ≤ i.protoMajor) :
+    urlHost? e i = some (e.hostnameOf i.host) := by
+  simp [requested_host_rule, requestedHost, h2]
+
+/-! ## The forwarded headers -/
+
 /-- X-Forwarded-For is exactly the connecting peer's IP: no client-supplied element is kept. -/
-theorem xff_peer_only (e : Env) (i : Req) (out : Hdr) (ip : String) (hp : i.peer = some ip) :
-    rewrite e i out XFF = [ip] := by
+theorem xff_peer_only (e : Env) (i : Req) (out h : Hdr) (ip : String) (hp : i.peer = some ip)
+    (hr : rewrite e i out = some h) : h XFF = [ip] := by
+  rw [rewrite_eq] at hr; cases hr
   hdr_simp
 
 /-- No peer address (unparsable RemoteAddr): the header is absent rather than client-controlled. -/
-theorem xff_absent_without_peer (e : Env) (i : Req) (out : Hdr) (hp : i.peer = none) :
-    rewrite e i out XFF = [] := by
+theorem xff_absent_without_peer (e : Env) (i : Req) (out h : Hdr) (hp : i.peer = none)
+    (hr : rewrite e i out = some h) : h XFF = [] := by
+  rw [rewrite_eq] at hr; cases hr
   hdr_simp
 
-theorem xfproto_https (e : Env) (i : Req) (out : Hdr) : rewrite e i out XFP = ["https"] := by
+theorem xfproto_https (e : Env) (i : Req) (out h : Hdr) (hr : rewrite e i out = some h) : h XFP = ["https"] := by
+  rw [rewrite_eq] at hr; cases hr
   hdr_simp
 
 /-- X-Forwarded-Host = requested host name, with the gateway port unless it is 443. -/
-theorem xfhost_requested (e : Env) (i : Req) (out : Hdr) : rewrite e i out XFH = [wantHost e i] := by
+theorem xfhost_requested (e : Env) (i : Req) (out h : Hdr) (hr : rewrite e i out = some h) :
+    h XFH = [wantHost e i] := by
+  rw [rewrite_eq] at hr; cases hr
   hdr_simp
 
-/-- which host is "requested": Host for HTTP/2+, SNI for HTTP/1.1 over TLS, Host otherwise — always through `.Hostname()` -/
-theorem requested_host_rule (e : Env) (i : Req) :
-    urlHost e i = e.hostnameOf (if 2 ≤ i.protoMajor then i.host else (i.tls.getD i.host)) := by
-  unfold urlHost; cases i.tls <;> simp
+/-- HTTP/2 and HTTP/3 (connection coalescing): X-Forwarded-Host names the request's own authority (+port),
+for every TLS state / SNI of the connection the request arrived on. -/
+theorem xfhost_is_authority_on_h2_h3 (e : Env) (i : Req) (out h : Hdr) (h2 : 2 ≤ i.protoMajor)
+    (hr : rewrite e i out = some h) : h XFH = [withPort e.port (e.hostnameOf i.host)] := by
+  rw [xfhost_requested e i out h hr]; simp [wantHost, requestedHost, h2]
 
-theorem client_ip_headers_removed (e : Env) (i : Req) (out : Hdr) :
-    rewrite e i out TCI = [] ∧ rewrite e i out XRI = [] := by
+/-- … hence two HTTP/2+ requests for the same authority get the same X-Forwarded-Host whatever connection
+(SNI, TLS or not, minor version, peer) and whatever client headers they came with. -/
+theorem xfhost_independent_of_sni_on_h2_h3 (e : Env) (i₁ i₂ : Req) (out₁ out₂ h₁ h₂ : Hdr)
+    (p₁ : 2 ≤ i₁.protoMajor) (p₂ : 2 ≤ i₂.protoMajor) (hh : i₁.host = i₂.host)
+    (r₁ : rewrite e i₁ out₁ = some h₁) (r₂ : rewrite e i₂ out₂ = some h₂) : h₁ XFH = h₂ XFH := by
+  rw [xfhost_is_authority_on_h2_h3 e i₁ out₁ h₁ p₁ r₁, xfhost_is_authority_on_h2_h3 e i₂ out₂ h₂ p₂ r₂, hh]
+
+/-- HTTP/1.x over TLS: the connection's SNI (+port) is forwarded, not the client's Host header. -/
+theorem xfhost_is_sni_on_http1_tls (e : Env) (i : Req) (out h : Hdr) (sni : String) (h1 : i.protoMajor < 2)
+    (ht : i.tls = some sni) (hr : rewrite e i out = some h) : h XFH = [withPort e.port (e.hostnameOf sni)] := by
+  rw [xfhost_requested e i out h hr]
+  have : ¬ 2 ≤ i.protoMajor := by omega
+  simp [wantHost, requestedHost, this, ht]
+
+theorem client_ip_headers_removed (e : Env) (i : Req) (out h : Hdr) (hr : rewrite e i out = some h) :
+    h TCI = [] ∧ h XRI = [] := by
+  rw [rewrite_eq] at hr; cases hr
   constructor <;> cases hp : i.peer <;> hdr_simp
 
 def guarded : List String := [XFF, XFH, XFP, TCI, XRI]
 
 /-- Non-interference: the five guarded headers of the forwarded request do not depend on ANY header the
 client sent (nor on what the library left in place): two arbitrary outbound maps give the same values. -/
-theorem guarded_independent_of_client_headers (e : Env) (i : Req) (out₁ out₂ : Hdr) (k : String)
-    (hk : k ∈ guarded) : rewrite e i out₁ k = rewrite e i out₂ k := by
-  have t1 := client_ip_headers_removed e i out₁
-  have t2 := client_ip_headers_removed e i out₂
+theorem guarded_independent_of_client_headers (e : Env) (i : Req) (out₁ out₂ h₁ h₂ : Hdr) (k : String)
+    (hk : k ∈ guarded) (r₁ : rewrite e i out₁ = some h₁) (r₂ : rewrite e i out₂ = some h₂) : h₁ k = h₂ k := by
+  have t1 := client_ip_headers_removed e i out₁ h₁ r₁
+  have t2 := client_ip_headers_removed e i out₂ h₂ r₂
   simp only [guarded, List.mem_cons, List.mem_nil_iff, or_false] at hk
   rcases hk with rfl | rfl | rfl | rfl | rfl
   · cases hp : i.peer with
-    | none => rw [xff_absent_without_peer e i out₁ hp, xff_absent_without_peer e i out₂ hp]
-    | some ip => rw [xff_peer_only e i out₁ ip hp, xff_peer_only e i out₂ ip hp]
-  · rw [xfhost_requested, xfhost_requested]
-  · rw [xfproto_https, xfproto_https]
+    | none => rw [xff_absent_without_peer e i out₁ h₁ hp r₁, xff_absent_without_peer e i out₂ h₂ hp r₂]
+    | some ip => rw [xff_peer_only e i out₁ h₁ ip hp r₁, xff_peer_only e i out₂ h₂ ip hp r₂]
+  · rw [xfhost_requested e i out₁ h₁ r₁, xfhost_requested e i out₂ h₂ r₂]
+  · rw [xfproto_https e i out₁ h₁ r₁, xfproto_https e i out₂ h₂ r₂]
   · rw [t1.1, t2.1]
   · rw [t1.2, t2.2]
 
 /-- Frame: every other header is passed through untouched by `proxyRewrite` (this is why e.g. a client
 `X-Forwarded-Port` reaches the tunnel: recorded by the harness as an observation). -/
-theorem other_headers_untouched (e : Env) (i : Req) (out : Hdr) (k : String) (hk : k ∉ guarded) :
-    rewrite e i out k = out k := by
+theorem other_headers_untouched (e : Env) (i : Req) (out h : Hdr) (k : String) (hk : k ∉ guarded)
+    (hr : rewrite e i out = some h) : h k = out k := by
+  rw [rewrite_eq] at hr; cases hr
   simp only [guarded, List.mem_cons, List.mem_nil_iff, or_false, not_or, XFF, XFH, XFP, TCI, XRI] at hk
   obtain ⟨h1, h2, h3, h4, h5⟩ := hk
   cases hp : i.peer <;> hdr_simp
 
-/-! ## Non-vacuity: a spoofing request over HTTP/1.1+TLS on port 8443 -/
+/-! ## Non-vacuity: a spoofing request over HTTP/1.1+TLS on port 8443, and the same request arriving over
+HTTP/2 / HTTP/3 on a coalesced connection (SNI `app.example.com`, authority `other.example.com`) -/
 private def spoof : Hdr := Hdr.ofList [(XFF, ["6.6.6.6", "10.0.0.1"]), (XFH, ["evil.example"]), (XFP, ["http"]),
   (TCI, ["6.6.6.6"]), (XRI, ["6.6.6.6"]), ("X-Forwarded-Port", ["1"])]
 private def env1 : Env := ⟨8443, id⟩
-private def req1 : Req := ⟨1, some "app.example.com", "other.example.com", some "198.51.100.7"⟩
+private def req1 : Req := ⟨1, 1, some "app.example.com", "other.example.com", some "198.51.100.7"⟩
+private def req3 : Req := { req1 with protoMajor := 3, protoMinor := 0 }
+private def get (r : Option Hdr) (k : String) : Option (List String) := r.map (· k)
 
-example : rewrite env1 req1 spoof XFF = ["198.51.100.7"] := by decide
-example : rewrite env1 req1 spoof XFH = ["app.example.com:8443"] := by decide
-example : rewrite ⟨443, id⟩ { req1 with protoMajor := 2 } spoof XFH = ["other.example.com"] := by decide
-example : rewrite env1 req1 spoof XFP = ["https"] ∧ rewrite env1 req1 spoof TCI = [] ∧ rewrite env1 req1 spoof XRI = [] := by decide
+example : get (rewrite env1 req1 spoof) XFF = some ["198.51.100.7"] := by decide
+example : get (rewrite env1 req1 spoof) XFH = some ["app.example.com:8443"] := by decide
+example : get (rewrite ⟨443, id⟩ { req1 with protoMajor := 2, protoMinor := 0 } spoof) XFH = some ["other.example.com"] := by decide
+example : get (rewrite env1 req3 spoof) XFH = some ["other.example.com:8443"] := by decide
+example : get (rewrite env1 { req3 with tls := some "third.example.com" } spoof) XFH = some ["other.example.com:8443"] := by decide
+example : 2 ≤ req3.protoMajor ∧ req3.tls ≠ some req3.host ∧ (rewrite env1 req3 spoof).isSome := by decide
+example : req1.protoMajor < 2 ∧ req1.tls = some "app.example.com" := by decide
+example : get (rewrite env1 req1 spoof) XFP = some ["https"] ∧ get (rewrite env1 req1 spoof) TCI = some [] ∧
+    get (rewrite env1 req1 spoof) XRI = some [] := by decide
 example : spoof XFF = ["6.6.6.6", "10.0.0.1"] ∧ spoof TCI = ["6.6.6.6"] := by decide
-example : rewrite env1 req1 spoof "X-Forwarded-Port" = ["1"] := by decide
+example : get (rewrite env1 req1 spoof) "X-Forwarded-Port" = some ["1"] := by decide
 
 end Specter.C35
